@@ -325,7 +325,7 @@ CHECKS = {
         technique='history invariants over generated scenarios (rapid) with a directed yield-point schedule against a reference server',
         rule=('case = rpc scenario (callers, answer schedule, interleaved server pushes, optional hold at send.msgid, GOMAXPROCS). Non-trivial: the received stream has two '
               'adjacent requests or an acknowledgement interleaved with requests; distinct by hash of the scenario.'),
-        must_hit=['directed:content-related-message-while-a-sender-is-in-the-send-path', 'feat:adjacent-requests', 'feat:ack-interleaved-with-requests', 'feat:content-related-in-container', 'directed:hold-after-msgid', 'msgid-generator', 'server-history:clock-skew-notification', 'client-ping', 'server-history:repeated-result', 'server-history:content-related-push',
+        must_hit=['server-history:rider:bad-msg', 'directed:content-related-message-while-a-sender-is-in-the-send-path', 'feat:adjacent-requests', 'feat:ack-interleaved-with-requests', 'feat:content-related-in-container', 'directed:hold-after-msgid', 'msgid-generator', 'server-history:clock-skew-notification', 'client-ping', 'server-history:repeated-result', 'server-history:content-related-push',
                   'server-history:service-push', 'server-history:close-and-reconnect', 'feat:stream-continues-after-reconnect', 'concurrent-callers', 'server-history:seq_no-passes-2^31', 'server-history:redelivery-after-the-acknowledgement', 'server-clock-after-2038', 'server-history:message-longer-than-1MiB', 'verdict:ok'],
         assumptions=['seq_no: the statement demands parity and monotonicity, not the exact value 2*count',
                      'no clock hook: equal clock readings for two messages are unreachable here (a write system call separates two reads under the send lock)',
